@@ -37,18 +37,38 @@ func leqBranch(iff *ssa.If) (x ssa.Value, T string, succ int, ok bool) {
 	if !good {
 		return nil, "", 0, false
 	}
+	X := stripWiden(bo.X)
 	switch bo.Op {
 	case token.LEQ:
-		return bo.X, k.String(), 0, true
+		return X, k.String(), 0, true
 	case token.LSS:
-		return bo.X, new(big.Int).Sub(k, big.NewInt(1)).String(), 0, true
+		return X, new(big.Int).Sub(k, big.NewInt(1)).String(), 0, true
 	case token.GTR:
-		return bo.X, k.String(), 1, true
+		return X, k.String(), 1, true
 	case token.GEQ:
-		return bo.X, new(big.Int).Sub(k, big.NewInt(1)).String(), 1, true
+		return X, new(big.Int).Sub(k, big.NewInt(1)).String(), 1, true
 	}
 	return nil, "", 0, false
 }
+
+// stripWiden removes value-preserving integer conversions (int -> int64, written so that a constant
+// above 2^31 compiles on 32-bit targets): the comparison is about the same number.
+func stripWiden(v ssa.Value) ssa.Value {
+	for {
+		cv, ok := v.(*ssa.Convert)
+		if !ok || !isInt(cv.Type()) || !isInt(cv.X.Type()) {
+			return v
+		}
+		du, su := isUnsigned(cv.Type()), isUnsigned(cv.X.Type())
+		db, sb := intBits(cv.Type()), intBits(cv.X.Type())
+		if (du == su && db >= sb) || (!du && su && db > sb) {
+			v = cv.X
+			continue
+		}
+		return v
+	}
+}
+
 
 // hdrStore describes one constant-index store into the output buffer.
 type hdrStore struct {
